@@ -250,6 +250,16 @@ fn run_t<T: Elem>(c: &Case, tsan: bool) -> Outcome {
                 }
                 idle = 0;
                 ci3.store(0, Ordering::SeqCst);
+                // A wait for no more than what is readable right now must never
+                // answer "can never be satisfied", whatever the ring position.
+                if let Cons::S(r) = &q {
+                    if rng.chance(1, 6) {
+                        let k = rng.range(1, len);
+                        if r.wait(k) {
+                            return Err(format!("wait({k}) said 'never' while {len} samples were readable"));
+                        }
+                    }
+                }
                 // verify the whole window
                 let check = |from: u64, s: &[T]| -> Result<(), String> {
                     for (i, v) in s.iter().enumerate() {
